@@ -1204,6 +1204,18 @@ func (f *FnVC) next(x *ssa.Next) {
 	out = append(out, TV{okc, types.Typ[types.Bool], "Bool"})
 	for i := 1; i < tt.Len(); i++ {
 		et := tt.At(i).Type()
+		if b, isB := et.(*types.Basic); isB && b.Kind() == types.Invalid && !x.IsString {
+			// unused key or value of a map range ('_'): the tuple carries no type, take it from the map
+			if r, ok := x.Iter.(*ssa.Range); ok {
+				if mt, ok := r.X.Type().Underlying().(*types.Map); ok {
+					if i == 1 {
+						et = mt.Key()
+					} else {
+						et = mt.Elem()
+					}
+				}
+			}
+		}
 		v := f.tv(f.freshConst("next", f.sorts.sortOf(et)), et)
 		f.typeFacts(v, true)
 		f.allocatedFact(v, f.st)
@@ -1225,10 +1237,8 @@ func (f *FnVC) next(x *ssa.Next) {
 				nv := f.freshConst("visited", "(Array "+ks+" Bool)")
 				f.fact(sEq(nv, sIte(okc, sStore(vis, out[1].T, "true"), vis)))
 				f.setHeap(vh, nv)
-				if len(out) > 2 && tt.At(2).Type() != nil {
-					if _, inv := tt.At(2).Type().(*types.Basic); !(inv && tt.At(2).Type().(*types.Basic).Kind() == types.Invalid) {
-						f.fact(sImp(okc, sEq(out[2].T, sSel(sSel(f.st.get(mv), m), out[1].T))))
-					}
+				if len(out) > 2 {
+					f.fact(sImp(okc, sEq(out[2].T, sSel(sSel(f.st.get(mv), m), out[1].T))))
 				}
 			}
 		}
